@@ -33,6 +33,13 @@ RULE = ('one run = one seeded history (a few commits, a victim transaction, '
         'the C01 rule; one evaluation = one such variant; non-trivial = '
         'the victim reached the storage (>= 1 store or a fired fault); '
         'distinct = (kind, variant, outcome, hash of history)')
+RULE += ('  '
+         'Later addition (10 % of the runs): a DB-level arm in which '
+         'another participant makes calls with a foreign transaction '
+         '(tpc_finish, tpc_vote, tpc_abort, store, '
+         'checkCurrentSerialInTransaction) on the storage adapter the '
+         'Connection commits through, between the phases of a commit: '
+         'refused, and the commit completes. ')
 BUDGET = {'quick': {'runs': 480, 'wall': 300, 'chunk': 5},
           'thorough': {'runs': 24000, 'wall': 1800, 'chunk': 10}}
 ASSUMPTIONS = [
